@@ -438,6 +438,24 @@ func c10Loading(t *zsim.Tape, w *zsim.World, d *zsim.Disk, sc *c10Scenario, out 
 	case 4:
 		sc.Files["/proj/工具.zn"] = "如何帮手？\n\t输出“帮”\n\xff\xfe"
 	}
+	// a further import whose NAME is degenerate (empty, only separators, a trailing separator, the
+	// file name instead of the module name, path-like): any outcome but a crash is acceptable
+	degenerate := false
+	if x := t.Draw(14); x > 0 {
+		name := []string{"", "-", "--", "工具-", "-工具", "工具.zn", "子-", "子-深-", "子--深", "../工具", "/proj/工具", ".", "子-深.zn"}[x-1]
+		line := "导入“" + name + "”\n"
+		main := sc.Files["/proj/main.zn"]
+		switch t.Draw(3) {
+		case 0:
+			main = line + main
+		case 1:
+			main = strings.Replace(main, "导入“子-深”\n", "导入“子-深”\n"+line, 1)
+		case 2:
+			main = strings.Replace(main, "导入“子-深”\n", line+"导入“子-深”\n", 1)
+		}
+		sc.Files["/proj/main.zn"] = main
+		degenerate = true
+	}
 	for p, s := range sc.Files {
 		if s != "<dir>" {
 			d.Put(p, []byte(s))
@@ -446,7 +464,7 @@ func c10Loading(t *zsim.Tape, w *zsim.World, d *zsim.Disk, sc *c10Scenario, out 
 	enableFaults(t, d, &sc.Faults, []string{zsim.FStatEACCES, zsim.FOpenEACCES, zsim.FOpenEMFILE, zsim.FOpenVanished, zsim.FReadEIO, zsim.FReadShort})
 	res := runFile(w, newInterp(), "/proj/main.zn", nil)
 	sc.Outcome = res.String()
-	out.Keys = []string{fmt.Sprintf("loading|%v|%d", sc.Faults, len(sc.Files))}
+	out.Keys = []string{fmt.Sprintf("loading|%v|%d|%s", sc.Faults, len(sc.Files), hlib.Hash(sc.Files["/proj/main.zn"])[:6])}
 	if res.Panic != "" {
 		return fail("loading:panic:"+c10PanicSite(w), "Go panic escaped LoadFile(...).Execute: "+res.Panic)
 	}
@@ -459,11 +477,14 @@ func c10Loading(t *zsim.Tape, w *zsim.World, d *zsim.Disk, sc *c10Scenario, out 
 			faulted = true
 		}
 	}
-	pristine := len(sc.Files) == 3 && sc.Files["/proj/工具.zn"] == "如何帮手？\n\t输出“帮”\n" && sc.Files["/proj/子/深.zn"] != ""
+	pristine := !degenerate && len(sc.Files) == 3 && sc.Files["/proj/工具.zn"] == "如何帮手？\n\t输出“帮”\n" && sc.Files["/proj/子/深.zn"] != ""
 	if !faulted && pristine {
 		if res.Err != "" || strings.Join(res.Display, ",") != "帮,深" || res.Result != "*value.String:done" {
 			return fail("loading:wrong-outcome", "fault-free load of a correct project gave "+res.String())
 		}
+	}
+	if degenerate && res.Err == "" {
+		return out // how a degenerate name resolves is not ruled on; it did not crash
 	}
 	if (faulted || !pristine) && res.Err == "" && strings.Join(res.Display, ",") != "帮,深" {
 		return fail("loading:fault-ignored", "a module could not be loaded, yet the program ran on without error: "+res.String())
